@@ -515,6 +515,11 @@ def shrink(plan):
             ns[url] = "".join(x + "\n" for x in lines[:i] + lines[j:])
             new["store"] = ns
             yield new
+    from zcsim import xmlshrink
+    for xml in xmlshrink.candidates(plan["schema_xml"]):
+        new = dict(plan)
+        new["schema_xml"] = xml
+        yield new
 
 
 def sample(plan):
